@@ -38,6 +38,8 @@ type throwEvent struct {
 	awaitingActions []chan IAction
 	once            sync.Once
 	satisfier       *logic.ThrowEventSatisfier
+	// stopped is closed when the node's loop ends
+	stopped chan struct{}
 }
 
 func newThrowEvent(wr *wiring, element *schema.ThrowEvent, idGenerator id.IGenerator) (evt *throwEvent, err error) {
@@ -49,6 +51,7 @@ func newThrowEvent(wr *wiring, element *schema.ThrowEvent, idGenerator id.IGener
 		activated:       atomic.Bool{},
 		awaitingActions: make([]chan IAction, 0),
 		satisfier:       logic.NewThrowEventSatisfier(element, wr.eventDefinitionInstanceBuilder),
+		stopped:         make(chan struct{}),
 	}
 
 	err = evt.eventEgress.RegisterEventConsumer(evt)
@@ -60,6 +63,7 @@ func newThrowEvent(wr *wiring, element *schema.ThrowEvent, idGenerator id.IGener
 
 func (evt *throwEvent) run(ctx context.Context, sender tracing.ISenderHandle) {
 	defer sender.Done()
+	defer close(evt.stopped)
 
 	for {
 		select {
@@ -95,7 +99,12 @@ func (evt *throwEvent) ConsumeEvent(ev event.IEvent) (result event.ConsumptionRe
 		result = event.Consumed
 		return
 	}
-	evt.mch <- eventMessage{event: ev}
+	select {
+	case evt.mch <- eventMessage{event: ev}:
+	case <-evt.stopped:
+		// the loop has ended (the instance was cancelled): nobody drains the inbox any
+		// more, the event is dropped instead of blocking the caller
+	}
 	result = event.Consumed
 	return
 }
